@@ -1,6 +1,7 @@
 /- C29 — property theorems (decision logic outright; transparency under the gzip contract). -/
 import TornadoModel.C29.Lemmas
 import TornadoModel.C29.RunLevel
+import TornadoModel.C29.RunCE
 namespace TornadoModel.C29
 open TornadoModel.C02
 open TornadoModel.C06 (Str normalize)
@@ -165,6 +166,26 @@ theorem run_transparent (gz : Gz) (gunzip : Bytes → Option Bytes) (hctr : Spec
     simp only [if_true]
     rw [a2, ← a3]
     exact hctr _ a1
+
+/-- **decoded_per_content_encoding** (the headline clause, literally): for every request shape (not HEAD, no
+    `If-None-Match` hit), every Accept-Encoding header and every exception-free program that leaves
+    `Content-Encoding` to the framework (`opClean29` = `C02.opClean` + no handler-set Content-Encoding), with any
+    gzip pair satisfying the contract: the strict client reads exactly one response `r`, nothing left over, with
+    the status in force at the first flush/finish; its `Content-Encoding` header is `gzip` exactly when the
+    transform compressed (absent otherwise); and **decoding the body according to that header**
+    (`Spec.decodeBody`) returns exactly the bytes the handler wrote. -/
+theorem decoded_per_content_encoding (gz : Gz) (gunzip : Bytes → Option Bytes) (hctr : Spec.GzContract gz gunzip)
+    (rq : Req) (ae : Option Str) (hrq : reqOK rq = true) (hm : rq.method ≠ Method.head)
+    (hinm : rq.inmMatch = false) (prog : List Op) (hops : ∀ op ∈ prog, opClean29 op = true) :
+    ∃ r, C02.Spec.clientParse (rq.method == .head) (wire (run gz rq ae prog).base.conn)
+          (run gz rq ae prog).base.conn.closed = .ok (r, []) ∧
+      r.status = headStatus 200 prog ∧
+      C02.Spec.lookup Spec.lcCE r.headers = (if (run gz rq ae prog).t.gzipping then [vGzip] else []) ∧
+      Spec.decodeBody gunzip r = some (bodyOf prog) :=
+  run_decode29 gz gunzip hctr rq ae hrq hm hinm prog hops
+
+example : ∀ op ∈ [Op.setHeader nCT [116, 101, 120, 116, 47, 120], .addHeader nVary [88], .write [97], .flush,
+    .clearHeader nCT, .write [98], .finish (some [99])], opClean29 op = true := by decide
 
 /-- **run_feed_is_writes** (no contract needed): in the same runs the transform is fed exactly the program's
     writes, as flushes followed by exactly one close, and the response body is the concatenation of what it emitted;
